@@ -3,7 +3,7 @@
    scoring put it (doubles, jitter and std::sort are not modelled): every statement holds for every ranking.
    Eligibility of the candidates themselves (unexpired, not the node's own id, held once) is C07's theorem about
    closest_peers; here: providers are a duplicate-free prefix of the candidates. *)
-Require Import ZArith List Permutation.
+Require Import ZArith List Bool Permutation.
 Import ListNotations.
 Local Open Scope Z_scope.
 From EphVerif Require Import lib.Bytes model.SwarmModel proofs.SwarmProofs.
